@@ -55,11 +55,12 @@ Proof. reflexivity. Qed.
 Lemma legacy_loads_bytes (ints : list N) :
   List.length ints = 8%nat -> bytes_ok ints -> load_array ints = Some ints.
 Proof.
-  intros Hl Ho. unfold load_array. rewrite Hl. cbn [Nat.leb]. f_equal.
-  replace (map (fun v => v mod 256) ints) with ints.
-  - rewrite <- Hl at 1. apply firstn_app_exact.
-  - clear Hl. induction Ho as [|x r Hx _ IH]; cbn [map]; [reflexivity|].
-    rewrite N.mod_small by exact Hx. now rewrite <- IH.
+  intros Hl Ho. unfold load_array. rewrite Hl. cbn [Nat.leb].
+  assert (Hm : map (fun v => v mod 256) ints = ints).
+  { clear Hl. induction Ho as [|x r Hx _ IH]; cbn [map]; [reflexivity|].
+    rewrite N.mod_small by exact Hx. now rewrite IH. }
+  rewrite Hm. f_equal.
+  transitivity (firstn (List.length ints) (ints ++ zero8)); [now rewrite Hl | apply firstn_app_exact].
 Qed.
 
 Theorem C16_legacy_equals_named :
